@@ -58,7 +58,8 @@ let do_pos fenhex =
     out (Printf.sprintf "R %d %s" (if same then 1 else 0) (hex_of_str f2));
     let legal = legalOf p in
     (* hypothesis of C17_short_roundtrip / C17_short_injective on this position (model-only line) *)
-    out (if legalShapeb p legal then "H 1" else "H 0");
+    out (Printf.sprintf "H %d %d" (if legalShapeb p legal then 1 else 0)
+           (if accepted { sp_board = p.squares; sp_white = p.whiteMove; sp_castle = p.castleMask; sp_ep = p.epSquare } then 1 else 0));
     let items = List.map (fun m ->
         let uci = moveToUCIString m in
         let sh = moveToStringL p legal m false in
@@ -66,7 +67,9 @@ let do_pos fenhex =
         let ps = stringToMove p legal sh in
         let pl = stringToMove p legal lo in
         let pu = uciStringToMove uci in
-        String.concat ":" [string_of_str uci; string_of_str sh; string_of_str lo; mv_num ps; mv_num pl; mv_num pu]) legal in
+        let sp = { sp_board = p.squares; sp_white = p.whiteMove; sp_castle = p.castleMask; sp_ep = p.epSquare } in
+        let ck = if gives_check_spec sp m then "c" ^ string_of_int (List.length (legal_moves_spec (make_spec sp m))) else "n" in
+        String.concat ":" [string_of_str uci; string_of_str sh; string_of_str lo; mv_num ps; mv_num pl; mv_num pu; ck]) legal in
     let items = List.sort compare items in
     out (if items = [] then "M -" else "M " ^ String.concat " " items)
 
